@@ -429,6 +429,19 @@ func (u *clientUpdater) updateService(ctx context.Context, service ServiceDefini
 	if err != nil {
 		return fmt.Errorf("failed to wipe on testSeed change (service=%s, testSeed=%s): %w", service.ID, seed, err)
 	}
+	if currentTimestamp > 0 {
+		// If the seed changed, the local copy has been wiped and its timestamp reset to 0.
+		// The presentations above were selected with the timestamp of the old list, so they are just a part of the new list:
+		// storing them (and the server's timestamp) would skip every entry of the new list at or below the old timestamp.
+		// Discard them, the next update retrieves the new list from the start.
+		newTimestamp, err := u.store.getTimestamp(service.ID)
+		if err != nil {
+			return err
+		}
+		if newTimestamp == 0 {
+			return nil
+		}
+	}
 	for _, presentation := range presentations {
 		// Check if the presentation already exists
 		credentialSubjectID, err := credential.PresentationSigner(presentation)
